@@ -1323,3 +1323,239 @@ Proof.
   exists pi. split; [exact Hover|]. split; [lia|].
   unfold conformant_check. rewrite Hrun, <- (bgoal_rel K P bg bs' Hrel). exact Hg.
 Qed.
+
+(* ================================================================== the prepared problem under the shared semantics *)
+Section Embed.
+  Variable NP : nprob.
+  Hypothesis Hwf : nwf NP = true.
+  Variable s : nstate.
+  Let I := mk_interp (embed NP) (embed_state s) [].
+
+  Lemma eval_lit_expr l : eval false (lit_expr l) I = Some (VBool (holds_lit s l)).
+  Proof.
+    destruct l as [p b]. unfold lit_expr, holds_lit. simpl fst. simpl snd. destruct b.
+    - rewrite eval_EFluent. simpl. destruct (s p); reflexivity.
+    - rewrite eval_ENot, eval_EFluent. simpl. destruct (s p); reflexivity.
+  Qed.
+
+  Lemma holds_lit_expr l : holds false I (lit_expr l) = holds_lit s l.
+  Proof. unfold holds. rewrite eval_lit_expr. destruct (holds_lit s l); reflexivity. Qed.
+
+  Lemma all_hold_lits ls : all_hold false I (map lit_expr ls) = forallb (holds_lit s) ls.
+  Proof. unfold all_hold. induction ls as [|l ls IH]; simpl; [reflexivity|]. rewrite holds_lit_expr, IH. reflexivity. Qed.
+
+  Lemma ebools_lits ls : ebools false I (map lit_expr ls) = Some (map (holds_lit s) ls).
+  Proof. induction ls as [|l ls IH]; simpl; [reflexivity|]. rewrite eval_lit_expr, IH. reflexivity. Qed.
+
+  Lemma forallb_id_map {A} (f : A -> bool) l : forallb (fun b => b) (map f l) = forallb f l.
+  Proof. induction l as [|x l IH]; simpl; [reflexivity|]. rewrite IH. reflexivity. Qed.
+
+  Lemma eval_cond r : eval false (EAnd (map lit_expr (r_cond r))) I = Some (VBool (fires s r)).
+  Proof. rewrite eval_EAnd, ebools_lits, forallb_id_map. reflexivity. Qed.
+
+  Definition rule_aeff (r : nrule) : aeff :=
+    {| ae_key := (fst (r_tgt r), []); ae_kind := KAssign; ae_val := VBool (snd (r_tgt r)) |}.
+
+  Lemma eval_rule_effect r :
+    eval_effect false I (rule_effect r) = if fires s r then EAct (rule_aeff r) else ESkip.
+  Proof.
+    unfold eval_effect. cbn [rule_effect e_args e_cond e_val e_fl e_kind evals_l].
+    rewrite eval_cond. destruct (fires s r); reflexivity.
+  Qed.
+
+  Lemma fired_rules rules :
+    fired false I (map rule_effect rules) = Some (map rule_aeff (filter (fires s) rules)).
+  Proof.
+    unfold fired. induction rules as [|r rules IH]; [reflexivity|].
+    cbn [map flat_map]. cbn [rule_effect e_vars instances map app]. fold (rule_effect r).
+    rewrite eval_rule_effect. cbn [filter]. destruct (fires s r); cbn [collect_res app]; rewrite IH; reflexivity.
+  Qed.
+
+  Lemma atom_is_bool p : existsb (N.eqb p) (np_atoms NP) = true -> is_bool_fluent (embed NP) p = true.
+  Proof.
+    unfold is_bool_fluent, embed. cbn [p_fluents]. intros H. rewrite existsb_exists in *.
+    destruct H as [q [Hq E]]. apply N.eqb_eq in E. subst q.
+    exists {| fd_id := p; fd_sig := []; fd_ty := FBool |}. split; [apply in_map_iff; exists p; auto|].
+    simpl. rewrite N.eqb_refl. reflexivity.
+  Qed.
+
+  Lemma avals_cons k a l :
+    avals k (a :: l) = if gfl_eqb (ae_key a) k && is_assign a then ae_val a :: avals k l else avals k l.
+  Proof. unfold avals. cbn [filter]. destruct (gfl_eqb (ae_key a) k && is_assign a); reflexivity. Qed.
+
+  Lemma deltas_cons k a l :
+    deltas k (a :: l) = if gfl_eqb (ae_key a) k && negb (is_assign a) then delta_of a :: deltas k l else deltas k l.
+  Proof. unfold deltas. cbn [filter]. destruct (gfl_eqb (ae_key a) k && negb (is_assign a)); reflexivity. Qed.
+
+  Lemma rule_key_test r p args :
+    gfl_eqb (ae_key (rule_aeff r)) (p, args) = (fst (r_tgt r) =? p)%N && match args with [] => true | _ => false end.
+  Proof. unfold gfl_eqb, rule_aeff. simpl. destruct args; reflexivity. Qed.
+
+  Lemma avals_rules0 p rules :
+    avals (p, []) (map rule_aeff (filter (fires s) rules))
+    = map (fun r => VBool (snd (r_tgt r))) (filter (fun r => fires s r && (fst (r_tgt r) =? p)%N) rules).
+  Proof.
+    induction rules as [|r rules IH]; [reflexivity|].
+    cbn [filter]. destruct (fires s r); cbn [andb]; [|exact IH].
+    cbn [map]. rewrite avals_cons, rule_key_test, IH. cbn [rule_aeff is_assign ae_kind ae_val].
+    rewrite !andb_true_r. destruct (fst (r_tgt r) =? p)%N; reflexivity.
+  Qed.
+
+  Lemma avals_rules1 p x args rules : avals (p, x :: args) (map rule_aeff (filter (fires s) rules)) = [].
+  Proof.
+    induction rules as [|r rules IH]; [reflexivity|].
+    cbn [filter]. destruct (fires s r); [|exact IH].
+    cbn [map]. rewrite avals_cons, rule_key_test, IH. rewrite andb_false_r. reflexivity.
+  Qed.
+
+  Lemma deltas_rules k rules : deltas k (map rule_aeff (filter (fires s) rules)) = [].
+  Proof.
+    induction rules as [|r rules IH]; [reflexivity|].
+    cbn [filter]. destruct (fires s r); [|exact IH]. cbn [map]. rewrite deltas_cons, IH.
+    cbn [rule_aeff is_assign ae_kind negb]. rewrite andb_false_r. reflexivity.
+  Qed.
+
+  Variable a : nact.
+  Hypothesis Ha : In a (np_acts NP).
+
+  Lemma rule_target_atom r : In r (na_rules a) -> is_bool_fluent (embed NP) (fst (r_tgt r)) = true.
+  Proof.
+    intros Hr. apply atom_is_bool.
+    unfold nwf in Hwf. apply andb_true_iff in Hwf. destruct Hwf as [Hacts _].
+    rewrite forallb_forall in Hacts. specialize (Hacts a Ha). apply andb_true_iff in Hacts. destruct Hacts as [_ Hrules].
+    rewrite forallb_forall in Hrules. specialize (Hrules r Hr). apply andb_true_iff in Hrules. apply Hrules.
+  Qed.
+
+  Definition fired_acts : list aeff := map rule_aeff (filter (fires s) (na_rules a)).
+
+  (* the combined effect on atom p: a true assignment wins, else a false one, else unchanged *)
+  Lemma combine_rules p rules :
+    (match map (fun r => VBool (snd (r_tgt r))) (filter (fun r => fires s r && (fst (r_tgt r) =? p)%N) rules) with
+     | [] => CUnchanged
+     | v :: A => CVal (VBool (existsb is_vtrue (v :: A)))
+     end)
+    = if existsb (fun r => fires s r && lit_eqb (r_tgt r) (p, true)) rules then CVal (VBool true)
+      else if existsb (fun r => fires s r && lit_eqb (r_tgt r) (p, false)) rules then CVal (VBool false)
+      else CUnchanged.
+  Proof.
+    induction rules as [|r rules IH]; [reflexivity|].
+    cbn [filter existsb]. destruct (fires s r); cbn [andb]; [|exact IH].
+    change (lit_eqb (r_tgt r) (p, true)) with ((fst (r_tgt r) =? p)%N && Bool.eqb (snd (r_tgt r)) true).
+    change (lit_eqb (r_tgt r) (p, false)) with ((fst (r_tgt r) =? p)%N && Bool.eqb (snd (r_tgt r)) false).
+    destruct (fst (r_tgt r) =? p)%N; cbn [andb orb]; [|exact IH].
+    cbn [map].
+    set (F := map (fun r0 : nrule => VBool (snd (r_tgt r0)))
+                  (filter (fun r0 : nrule => fires s r0 && (fst (r_tgt r0) =? p)%N) rules)) in *.
+    set (Et := existsb (fun r0 : nrule => fires s r0 && lit_eqb (r_tgt r0) (p, true)) rules) in *.
+    set (Ef := existsb (fun r0 : nrule => fires s r0 && lit_eqb (r_tgt r0) (p, false)) rules) in *.
+    destruct (snd (r_tgt r)); cbn [existsb is_vtrue Bool.eqb orb].
+    - reflexivity.
+    - destruct F as [|v l].
+      + destruct Et; [discriminate IH | reflexivity].
+      + destruct Et.
+        * injection IH as IH. cbn [existsb] in *. rewrite IH. reflexivity.
+        * destruct Ef; [injection IH as IH; cbn [existsb] in *; rewrite IH; reflexivity | discriminate IH].
+  Qed.
+
+  Lemma spec_fluent_rules p :
+    spec_fluent (embed NP) (embed_state s) fired_acts (p, [])
+    = if sets s a (p, true) then CVal (VBool true) else if sets s a (p, false) then CVal (VBool false) else CUnchanged.
+  Proof.
+    unfold spec_fluent, fired_acts, sets. cbn [fst snd]. rewrite avals_rules0, deltas_rules.
+    rewrite <- combine_rules.
+    destruct (map (fun r => VBool (snd (r_tgt r))) (filter (fun r => fires s r && (fst (r_tgt r) =? p)%N) (na_rules a)))
+      as [|v A] eqn:EA; [reflexivity|].
+    assert (Hb : is_bool_fluent (embed NP) p = true).
+    { assert (Hin : In v (v :: A)) by (left; reflexivity). rewrite <- EA in Hin.
+      apply in_map_iff in Hin. destruct Hin as [r [_ Hr]]. apply filter_In in Hr. destruct Hr as [Hr Hc].
+      apply andb_true_iff in Hc. destruct Hc as [_ Hc]. apply N.eqb_eq in Hc. subst p. apply rule_target_atom, Hr. }
+    unfold combine. rewrite Hb. reflexivity.
+  Qed.
+
+  Lemma spec_fluent_args p x args : spec_fluent (embed NP) (embed_state s) fired_acts (p, x :: args) = CUnchanged.
+  Proof. unfold spec_fluent, fired_acts. cbn [fst snd]. rewrite avals_rules1, deltas_rules. reflexivity. Qed.
+
+  Lemma effects_ok_rules : spec_effects_ok (embed NP) (embed_state s) fired_acts = true.
+  Proof.
+    unfold spec_effects_ok. apply forallb_forall. intros x Hx. unfold fired_acts in Hx.
+    apply in_map_iff in Hx. destruct Hx as [r [<- _]]. cbn [rule_aeff ae_key].
+    rewrite spec_fluent_rules. destruct (sets s a (fst (r_tgt r), true)); [reflexivity|].
+    destruct (sets s a (fst (r_tgt r), false)); reflexivity.
+  Qed.
+
+  Lemma succ_rules : state_eq (spec_succ (embed NP) (embed_state s) fired_acts) (embed_state (nsucc s a)).
+  Proof.
+    intros f args. unfold spec_succ. destruct args as [|x args].
+    - rewrite spec_fluent_rules. unfold embed_state, nsucc.
+      destruct (sets s a (f, true)); [reflexivity|]. destruct (sets s a (f, false)); reflexivity.
+    - rewrite spec_fluent_args. reflexivity.
+  Qed.
+
+  Lemma bound_invs_embed : bound_invs (embed NP) = [].
+  Proof.
+    unfold bound_invs. change (p_fluents (embed NP)) with (map (fun p => {| fd_id := p; fd_sig := []; fd_ty := FBool |}) (np_atoms NP)).
+    generalize (embed NP). intros Q. induction (np_atoms NP) as [|p l IH]; [reflexivity | exact IH].
+  Qed.
+
+  Lemma embed_step :
+    match nstep s a with
+    | Some s' => exists t, spec_step false (embed NP) (embed_state s) (embed_act a) [] = Some t /\ state_eq t (embed_state s')
+    | None => spec_step false (embed NP) (embed_state s) (embed_act a) [] = None
+    end.
+  Proof.
+    unfold nstep, spec_step. cbn [embed_act a_params a_pre a_effs zip_params].
+    fold I. rewrite all_hold_lits. destruct (forallb (holds_lit s) (na_pre a)); cbn [negb]; [|reflexivity].
+    rewrite fired_rules. fold fired_acts. rewrite effects_ok_rules. cbn [negb].
+    unfold invariants_ok. rewrite bound_invs_embed. cbn [embed p_invs app all_hold forallb].
+    eexists. split; [reflexivity | apply succ_rules].
+  Qed.
+End Embed.
+
+Lemma lookupN_number_from {A} (l : list A) : forall k i, lookupN (N.of_nat (k + i)) (number_from k l) = nth_error l i.
+Proof.
+  induction l as [|x l IH]; intros k i; [destruct i; reflexivity|]. cbn [number_from lookupN].
+  destruct i as [|i].
+  - rewrite Nat.add_0_r, N.eqb_refl. reflexivity.
+  - assert (E : (N.of_nat (k + S i) =? N.of_nat k)%N = false) by (apply N.eqb_neq; lia).
+    rewrite E. rewrite <- Nat.add_succ_comm. apply IH.
+Qed.
+
+Lemma lookup_embed NP i : lookup_action (embed NP) (N.of_nat i) = option_map embed_act (nth_error (np_acts NP) i).
+Proof.
+  unfold lookup_action, embed. cbn [p_actions]. rewrite (lookupN_number_from _ 0 i). apply nth_error_map.
+Qed.
+
+(* validity of a plan of the prepared problem = validity in the shared semantics of its embedding *)
+Theorem embed_valid NP : nwf NP = true -> forall pi s t,
+  state_eq t (embed_state s) -> valid_plan false (embed NP) t (embed_plan pi) = nvalid NP s pi.
+Proof.
+  intros Hwf. induction pi as [|i pi IH]; intros s t Ht.
+  - cbn [embed_plan map nvalid]. unfold valid_plan. cbn [run].
+    rewrite (kgoals_hold_ext false (embed NP) _ _ Ht). unfold goals_hold. cbn [embed p_goals]. apply all_hold_lits.
+  - cbn [embed_plan map nvalid]. fold (embed_plan pi). rewrite valid_plan_cons. unfold sstep. cbn [fst snd].
+    rewrite lookup_embed. destruct (nth_error (np_acts NP) i) as [a|] eqn:Ea; cbn [option_map]; [|reflexivity].
+    pose proof (kspec_step_ext false (embed NP) t (embed_state s) (embed_act a) [] Ht) as Hx.
+    pose proof (embed_step NP Hwf s a (nth_error_In _ _ Ea)) as Hs.
+    destruct (nstep s a) as [s'|].
+    + destruct Hs as [t' [E Ht']]. rewrite E in Hx.
+      destruct (spec_step false (embed NP) t (embed_act a) []) as [t''|]; [|contradiction].
+      apply IH. eapply kstate_eq_trans; eauto.
+    + rewrite Hs in Hx. destruct (spec_step false (embed NP) t (embed_act a) []); [contradiction | reflexivity].
+Qed.
+
+Lemma embed_conformant NP : nwf NP = true -> forall S0 pi,
+  conformant_check (embed NP) (map embed_state S0) (embed_plan pi) = nconformant NP S0 pi.
+Proof.
+  intros Hwf S0 pi. rewrite conformant_check_forallb. unfold nconformant.
+  induction S0 as [|s S0 IH]; [reflexivity|]. cbn [map forallb].
+  rewrite (embed_valid NP Hwf pi s (embed_state s) (kstate_eq_refl _)), IH. reflexivity.
+Qed.
+
+(* the reduction theorem over the shared planning semantics [spec_step false] *)
+Theorem basis_reduction_sound NP fuel R S0 :
+  nwf NP = true -> relevance NP fuel = Some R ->
+  forall pi, conformant_check (embed NP) (map embed_state (reduce_to_basis NP R S0)) (embed_plan pi)
+             = conformant_check (embed NP) (map embed_state S0) (embed_plan pi).
+Proof.
+  intros Hwf Hr pi. rewrite !(embed_conformant NP Hwf). apply (basis_reduction_sound_lemma NP fuel R S0 Hwf Hr).
+Qed.
